@@ -219,3 +219,11 @@ func vRunSpawned(ticks int) int {
 }
 
 func vSpawnedCount() int { return 0 }
+
+func vCopyFile(src, dst string) bool {
+	b, err := os.ReadFile(src)
+	if err != nil {
+		return false
+	}
+	return os.WriteFile(dst, b, 0600) == nil
+}
